@@ -184,6 +184,29 @@ def view(ctx, f, depth=3, stop=(), _stack=(), force=()):
                     it2 = _subst(it, env)
                     it2 = dict(it2, guard=list(c.get('guard', [])) + list(it2.get('guard', [])), via=it.get('via') or g['name'], via_line=c.get('line'))
                     out[L].append(it2)
+            # a closure literal handed to the helper runs where the helper calls its parameter: the frames that guard that
+            # call inside the helper (`if seen.insert(name) { visit(seen) }`) also guard everything written in the closure
+            params_g = [p_['name'] for p_ in g['params'] if p_['name'] != 'self']
+            for pn, a in zip(params_g, c.get('args', [])):
+                clo = vt.strip(a)
+                if not (isinstance(clo, dict) and clo.get('k') == 'closure' and clo.get('id') is not None):
+                    continue
+                inner = [x for x in G.get('calls', []) if x.get('f') == pn and x.get('recv') is None]
+                if len(inner) != 1:
+                    continue
+                extra = [fr for fr in _subst(inner[0].get('guard', []), env) if fr.get('k') in ('if', 'arm', 'for', 'while', 'loop')]
+                if not extra:
+                    continue
+                for L in LISTS:
+                    new_l = []
+                    for it in out[L]:
+                        gd = it.get('guard', []) if isinstance(it, dict) else []
+                        ix = next((i for i, fr in enumerate(gd) if fr.get('k') == 'closure' and fr.get('id') == clo.get('id')), None)
+                        if ix is not None and not it.get('_clo_' + str(clo.get('id'))):
+                            it = dict(it, guard=list(gd[:ix]) + [dict(fr, via_closure_param=pn) for fr in extra] + list(gd[ix:]))
+                            it['_clo_' + str(clo.get('id'))] = True
+                        new_l.append(it)
+                    out[L] = new_l
             # early returns of the helper that propagate an error through `?` at the call site are exits of the caller too
             if c.get('parent') == 'try':
                 for r in G.get('returns', []):
